@@ -1055,7 +1055,7 @@ pub fn run_c10_check(tier: &str, seed: u64, workers: u64, buffers_override: Opti
         "coverage": {
             "evaluations": total.cases,
             "distinct_nontrivial": all_keys.len(),
-            "rule": "one evaluation = one (buffer, fault) case loaded into a non-empty engine (own rules, enabled tags) under catch_unwind and allocation accounting. For every sampled buffer the single-fault space is enumerated completely for: torn write (every prefix), bit rot (every single-bit flip), stale tail (new prefix + old image suffix at every cut), lost write, marker substitution (20 replacement markers at every msgpack value offset found by a walker), string substitution (every stored string replaced by each of 27 degenerate/hostile strings, re-framed as valid msgpack), JSON mutation (every stored JSON text with arrays emptied, keys removed, values nulled) and value substitution (every msgpack value, with everything nested in it, replaced by nil / false / 0 / empty array / empty map / empty string); zeroed ranges, duplicated ranges, multi-byte corruption and free-form strings (every header variant, hostile length fields, deep nesting) are sampled. Non-trivial and distinct: distinct (fault kind, corrupt byte string) pairs that differ from the pristine buffer, counted over all workers.",
+            "rule": "one evaluation = one (buffer, fault) case loaded into a non-empty engine (own rules, enabled tags) under catch_unwind and allocation accounting. For every sampled buffer the single-fault space is enumerated completely for: torn write (every prefix), bit rot (every single-bit flip), stale tail (new prefix + old image suffix at every cut), lost write, marker substitution (20 replacement markers at every msgpack value offset found by a walker), string substitution (every stored string replaced by each of 27 degenerate/hostile strings, re-framed as valid msgpack), JSON mutation (every stored JSON text with arrays emptied, keys removed, values nulled) and value substitution (every msgpack value, with everything nested in it, replaced by nil / false / 0 / empty array / empty map / empty string); zeroed ranges, duplicated ranges, multi-byte corruption, free-form strings (every header variant, hostile length fields, deep nesting) and typed hostile images (well-typed wire structures generated from scratch whose contents violate the parser's invariants: empty alternative lists, empty strings, anchor flags without hostname, unsorted/empty domain lists, arbitrary mask bits) are sampled. Non-trivial and distinct: distinct (fault kind, corrupt byte string) pairs that differ from the pristine buffer, counted over all workers.",
             "samples": samples,
             "exhaustive": true,
             "exhaustive_scope": format!("per sampled buffer, kinds {:?} are enumerated completely; buffers and the other kinds are sampled", EXHAUSTIVE_KINDS),
